@@ -7,6 +7,28 @@ from .. import d_keyedlist as D
 DEVS = ["setitem_delete_first", "extend_stepwise", "reverse_by_swaps"]
 
 
+def _table(job):
+    return D.run_table(job)
+
+
+def _random(job):
+    return D.run_random(job)
+
+
+def _replay(e, detail):
+    return ({"family": "keyedlist", "flavour": e["flavour"], "cfg": e["cfg"], "a": e.get("a"), "pre": e.get("pre", {}).get("lst"),
+             "post": e["post"]["lst"], "res": e.get("res"), "explained_by_deviation": detail, "kind": e["kind"], "hid": e.get("hid"), "seq": e.get("seq")},
+            f"op={e.get('a', {}).get('op')} flavour={e['flavour']} typed={e['cfg']['typed']} dev={detail}")
+
+
+def _key(e):
+    return [e["cfg"], e["flavour"], e.get("pre", e["post"])["lst"], e.get("a"), e.get("hid"), e.get("seq"), e["kind"]]
+
+
+def _nontrivial(e):
+    return e["kind"] == "op" and (e["post"]["lst"] != e["pre"]["lst"] or e["res"] != "ok")
+
+
 def cfg_text(keys, payloads, maxlen, intkeys, dev=""):
     ks = ", ".join(str(k) if intkeys else f'"{k}"' for k in keys)
     return f"""SPECIFICATION Spec
@@ -44,20 +66,19 @@ def main(tier):
         for label, keys, pays, intkeys, flavours in models:
             p = pipeline.write_cfg(tmp, f"{label}.cfg", cfg_text(keys, pays, ml, intkeys))
             r = pipeline.mc_run(rep, "KeyedList", p, label=label, workers=8)
-            states = [s["lst"] for s in r["states"]]
+            states = sorted((s["lst"] for s in r["states"]), key=common.canon)
             acts = r["acts"]
             universe = [{"k": k, "p": q, "bad": "no"} for k in keys for q in pays]
             idxs = list(range(-ml - 1, ml + 2))
             for fl in flavours:
                 for typed in (False, True):
-                    for ch in common.chunks(states, 6 if thorough else 3):
+                    for ch in common.chunks(states, 40 if thorough else 3):
                         jobs.append((fl, typed, ch, acts, keys, universe, idxs))
+        rep.mark("mc")
         pipeline.deviation_runs(rep, "KeyedList", lambda d: cfg_text(["a", "b", "c"], [0, 1], 3, False, d), DEVS)
-        ops, rds = [], []
-        for o, r in pipeline.pmap(D.run_table, jobs):
-            ops += o
-            rds += r
-        n_table = len(ops)
+        rep.mark("deviations")
+        r1 = pipeline.run_judged(_table, jobs, "J_KeyedList", replay_fn=_replay, key_fn=_key, nontrivial_fn=_nontrivial)
+        rep.mark("table")
         # random histories beyond the exhaustive bound (<= 12 items, 12 keys)
         rjobs = []
         nh = 400 if thorough else 60
@@ -65,24 +86,16 @@ def main(tier):
             for typed in (False, True):
                 for w in range(4 if thorough else 1):
                     rjobs.append((fl, typed, common.seed() * 1000 + w, nh, 60, 12, 2))
-        for o, r in pipeline.pmap(D.run_random, rjobs):
-            ops += o
-            rds += r
-        events = ops + rds
-        res = tla.judge("J_KeyedList", events, chunk=25000, jobs=common.jobs())
-        for gi, clause, detail in res["bad"]:
-            e = events[gi]
-            replay = {"family": "keyedlist", "flavour": e["flavour"], "cfg": e["cfg"], "a": e.get("a"),
-                      "pre": e.get("pre", {}).get("lst"), "post": e["post"]["lst"], "res": e.get("res"),
-                      "explained_by_deviation": detail, "kind": e["kind"], "hid": e.get("hid"), "seq": e.get("seq")}
-            rep.violation(clause, replay, f"op={e.get('a', {}).get('op')} flavour={e['flavour']} typed={e['cfg']['typed']} dev={detail}")
-        distinct = len({common.canon([e["cfg"], e["flavour"], e["pre"]["lst"], e["a"]]) for e in ops
-                        if e["post"]["lst"] != e["pre"]["lst"] or e["res"] != "ok"})
-        samples = [{k: e[k] for k in ("flavour", "cfg", "a", "res", "ret")} | {"pre": e["pre"]["lst"], "post": e["post"]["lst"]}
-                   for e in (ops[7], ops[len(ops) // 2], ops[-1])]
-        rep.add_events(len(events), distinct, samples)
-        rep.coverage.update({"table_events": n_table, "random_history_events": len(ops) - n_table,
-                             "distinct_read_observations": len(rds), "judge_antecedents": res["ante"],
+        r2 = pipeline.run_judged(_random, rjobs, "J_KeyedList", replay_fn=_replay, key_fn=_key, nontrivial_fn=_nontrivial)
+        rep.mark("random")
+        res = {"ante": {k: r1["ante"].get(k, 0) + r2["ante"].get(k, 0) for k in set(r1["ante"]) | set(r2["ante"])}}
+        for clause, (replay, detail) in r1["bad"] + r2["bad"]:
+            rep.violation(clause, replay, detail)
+        samples = [{k: e[k] for k in ("flavour", "cfg", "a", "res", "ret") if k in e} | {"pre": e.get("pre", {}).get("lst"), "post": e["post"]["lst"]}
+                   for e in (r1["samples"] + r2["samples"])[:3]]
+        rep.add_events(r1["n"] + r2["n"], r1["distinct"] + r2["distinct"], samples)
+        rep.coverage.update({"table_events": r1["n"], "random_history_events": r2["n"],
+                             "judge_antecedents": res["ante"],
                              "exhaustive": True,
                              "bounds": {"keys": nk, "max_len": ml, "payloads": 2, "random": "<=12 items over 12 keys, histories of 60 ops"}})
         for k in ("atomic", "duplicate_rule", "type_rule", "mutated", "reads"):
